@@ -61,6 +61,9 @@ def scenarios(P):
                     'd1/o.yaml': {'a': 'role:d'}},
             'new': {'d1/o.yaml': {'a': 'role:d2'}},
             'defaults': [], 'conf': {},
+            # in the reduced (quick) family the decider may also be stopped
+            # inside the file cache's read function of its own load step
+            'd_frames': ('enforce', 'read_cached_file'),
             'probes': [('k', []), ('a', ['m']), ('a', ['d']), ('a', ['d2'])],
         },
         's3-defaults-permissive-default': {
